@@ -18,6 +18,11 @@ FaultAt(r) == IF r.fault # 0 THEN r.fault ELSE IF HosIdx = {} THEN 0 ELSE SetMin
 NoiseAll == {L("key", "k3", ""), L("nokey", "", "zz"), L("comment", "", " note"), L("comment", "", "k1=zz"), L("blank", "", "")}
 NoiseSome == {L("key", "k3", ""), L("comment", "", "k1=zz"), L("blank", "", "")}
 NoiseNone == {}
+\* lines without '=' that name a key which the same documents also bind with '=' (k1, k2), beside one that is never
+\* bound (k3: it shows which reading of such lines the parser follows): duplicates in every combination of the
+\* line forms  k=v / k= / k , in one block and -- the domain re-opened -- in two
+NoiseBare == {L("key", "k1", ""), L("key", "k3", "")}
+NoiseAllBare == NoiseAll \cup {L("key", "k1", ""), L("key", "k2", "")}
 HosAll == {L("hos", "k1", "x&y"), L("hos", "k2", "1<2"), L("hos", "k2", "2>1"), L("hos", "k1", "@CTL"), L("hcomment", "", " a&b"),
            L("hcomment", "", " see <url>")}
 HosTwo == {L("hos", "k1", "x&y"), L("hos", "k2", "1<2")}
